@@ -31,6 +31,8 @@ type pgDb struct {
 	itBase []byte
 	tx     pgx.Tx
 	multi  bool
+	// set while a transaction explicitly opened with Start is open (cleared by Stop and Abort)
+	explicit bool
 }
 
 // NewpgDb creates a new Postgres backed Db implementation.
@@ -82,6 +84,7 @@ func (pdb *pgDb) Start(ctx context.Context) error {
 		return err
 	}
 	pdb.multi = true
+	pdb.explicit = true
 	return nil
 }
 
@@ -116,6 +119,7 @@ func (pdb *pgDb) stopSingle(ctx context.Context) error {
 }
 
 func (pdb *pgDb) stop(ctx context.Context) error {
+	pdb.explicit = false
 	if pdb.tx == nil {
 		return db.ErrNoTx
 	}
@@ -127,6 +131,7 @@ func (pdb *pgDb) stop(ctx context.Context) error {
 
 func (pdb *pgDb) Abort(ctx context.Context) {
 	logg.InfoCtxf(ctx, "aborting tx", "tx", pdb.tx)
+	pdb.explicit = false
 	if pdb.tx == nil {
 		return
 	}
@@ -162,6 +167,12 @@ func (pdb *pgDb) Put(ctx context.Context, key []byte, val []byte) error {
 		return err
 	}
 
+	if !pdb.explicit {
+		// no explicitly started transaction is open: an acknowledged write must be committed
+		err = pdb.tx.Commit(ctx)
+		pdb.tx = nil
+		return err
+	}
 	return pdb.stopSingle(ctx)
 }
 
